@@ -230,9 +230,14 @@ def codecB (st : CodecSt) (ln : Nat) (line : String) (r : Report) : CodecSt × R
                 let r := match Packet.parse ver pw fh' body with
                   | some (.ok p _) =>
                     let spec := (Packet.abs p).encode pw
-                    if spec ≠ cont then
+                    let r := if spec ≠ cont then
                       r.viol s!"C03 bytes@{kind}" s!"{loc}: the specification prescribes {short spec} for these field values, the implementation wrote {short cont}"
                     else r.tag "spec.bytes.checked"
+                    -- the vectored serialisation is "the bytes produced" as well (`~` = equal to the contiguous one)
+                    match (if bufs = "~" then none else hexToBytes bufs) with
+                    | some vb => if vb ≠ spec then
+                        r.viol s!"C03 bytes_vectored@{kind}" s!"{loc}: the specification prescribes {short spec} for these field values, the concatenated to_buffers() output is {short vb}" else r
+                    | none => r
                   | _ => r
                 compareParse st ln ver pw fh' body ir false r
             | _, _, _ => bad
